@@ -22,6 +22,22 @@ from spec.vocab import Spec  # noqa: E402
 VERIF = os.path.dirname(os.path.dirname(os.path.abspath(__file__)))
 NATIVE_PY = "/venv/bin/python"
 
+class _NoDaemonProcess(mp.get_context("fork").Process):  # type: ignore[name-defined,misc]
+    """Workers verify one function each and fork their own sub-pool to discharge its obligations."""
+
+    @property
+    def daemon(self):
+        return False
+
+    @daemon.setter
+    def daemon(self, value):
+        pass
+
+
+class _NoDaemonContext(type(mp.get_context("fork"))):  # type: ignore[misc]
+    Process = _NoDaemonProcess
+
+
 _V: Verifier | None = None
 
 
@@ -115,17 +131,22 @@ def main() -> int:
     global _V
     repo = Repo()
     reg = build_registry(cfg["modules"])
-    timeout_ms = 10000 if a.tier == "quick" else 60000
+    timeout_ms = 20000 if a.tier == "quick" else 120000
     _V = Verifier(repo, reg, Spec, timeout_ms=timeout_ms)
     keys = expand_keys(repo, reg, pid)
     if a.only:
         keys = [k for k in keys if k in a.only.split(",")]
-    known = [f for f in load_known() if f["property"] == pid and f.get("status", "open") == "open"]
+    def _for(p):
+        return pid in p if isinstance(p, list) else p == pid
+
+    known = [f for f in load_known() if _for(f["property"]) and f.get("status", "open") == "open"]
 
     all_results: list[dict] = []
     metas: dict[str, dict] = {}
-    ctx = mp.get_context("fork")
-    with ctx.Pool(max(1, min(a.jobs, len(keys) or 1))) as pool:
+    ctx = _NoDaemonContext()
+    n_outer = max(1, min(a.jobs, len(keys) or 1))
+    _V.inner_jobs = max(1, a.jobs // max(1, min(n_outer, 4)))  # only functions with many obligations fork sub-workers
+    with ctx.Pool(n_outer) as pool:
         for key, res, meta in pool.imap_unordered(_work, keys):
             all_results.extend(res)
             metas[key] = meta
@@ -162,7 +183,7 @@ def main() -> int:
     standin_cache: dict = {}
     bounded_seen: dict = {}
     sp = os.path.join(VERIF, "BOUNDED_STANDINS.json")
-    standins = [b for b in (json.load(open(sp))["standins"] if os.path.exists(sp) else []) if b["property"] == pid]
+    standins = [b for b in (json.load(open(sp))["standins"] if os.path.exists(sp) else []) if (pid in b["property"] if isinstance(b["property"], list) else b["property"] == pid)]
     notes: list[str] = []
     known_seen: list[str] = []
     undecided: list[str] = []
@@ -293,6 +314,7 @@ def main() -> int:
             "by_backend": by_solver,
             "solver_seconds": round(solver_s, 3),
             "samples": samples,
+            "slowest_discharged": sorted([(r.get("seconds", 0), r["label"]) for r in all_results if r["status"] == PROVED], reverse=True)[:8],
             "known_findings_seen": known_seen,
             "bounded_standins": list(bounded_seen.values()),
             "undecided": undecided,
